@@ -40,6 +40,15 @@ M = [
  ('C09-a', 'C09', 'backends/gdb_plugin/extract.py', "                for elem_index in range(size // int_type.sizeof):\n                    elem = value['data'].cast(int_type.pointer())[elem_index]", "                for i in range(size // int_type.sizeof):\n                    elem = value['data'].cast(int_type.pointer())[i]", 1),
  ('C09-b', 'C09', 'backends/gdb_plugin/extract.py', "            elif c == 'h':\n                args.append(wl.Arg.Fd(int(value)))", "            elif c == 'h':\n                args.append(wl.Arg.Fd(int(closure_args[i]['i'])))", 1),
  ('C09-c', 'C09', 'backends/gdb_plugin/extract.py', "        if c in type_codes:", "        if c in type_codes or c == '?':", 1),
+ ('C12-a', 'C12', 'core/matcher.py', '    new_list.negative += old_list.negative\n', '', 1),
+ ('C12-b', 'C12', 'core/matcher.py', '    new_list.positive = [i for i in new_list.positive if i.always() is not True]\n', '', 1),
+ ('C12-c', 'C12', 'core/matcher.py', '            for matcher in self.negative:\n                if matcher.matches(message):\n                    result = False\n                    break\n        return result\n\n    def simplify(self) -> Matcher[T]:\n        if len(self.positive) == 0:', '            for matcher in self.negative[1:]:\n                if matcher.matches(message):\n                    result = False\n                    break\n        return result\n\n    def simplify(self) -> Matcher[T]:\n        if len(self.positive) == 0:', 1),
+ ('C12-d', 'C12', 'core/matcher.py', '    if isinstance(old, AlwaysMatcher) or isinstance(new, AlwaysMatcher):\n        return new', '    if isinstance(old, AlwaysMatcher) or isinstance(new, AlwaysMatcher):\n        return old', 1),
+ ('C12-e', 'C12', 'core/matcher.py', '    new_list.positive += old_list.positive\n', '    new_list.positive += old_list.positive[:1]\n', 1),
+ ('C12-f', 'C12', 'core/matcher.py', 'if i.always() is not True]', 'if i.always() is None]', 1),
+ ('C12-g', 'C12', 'core/matcher.py', "        self.negative = [pattern for pattern in self.negative if not pattern.always() is False]\n        if len(self.positive) == 0:", "        self.negative = [pattern for pattern in self.negative[1:] if not pattern.always() is False]\n        if len(self.positive) == 0:", 1),
+ ('C12-h', 'C12', 'frontends/tui/controller.py', "            return old if old is not None else matcher.never", "            return matcher.never", 1),
+ ('C12-i', 'C12', 'frontends/tui/controller.py', "                return matcher.join(parsed, old).simplify()", "                return matcher.join(old, parsed).simplify()", 1),
  ('C16-a', 'C16', 'frontends/tui/controller.py', 'if delta > 1.0:', 'if delta >= 1.0:', 1),
  ('C16-b', 'C16', 'frontends/tui/controller.py', "                ')')\n            self.last_shown_timestamp = None", "                ')')", 1),
  ('C06-a', 'C06', 'frontends/tui/controller.py', 'if self.current_connection is None or connection == self.current_connection:', 'if True:', 1),
